@@ -259,13 +259,18 @@ def gen_ops(rng, t, n=None, wild=0.08):
                 o["after"] = rng.choice(pool)
             elif r < 0.55 and len(pool) > 1:
                 o["before"], o["after"] = rng.sample(pool, 2)
-            if rng.random() < 0.03:
+            if rng.random() < 0.06:
+                # a named column-level ForeignKey on the new column
+                o["fk"] = {"name": "fk_col%d" % len(ops), "rtable": "parent", "rcols": [rng.choice(["id", "code"])],
+                           "unqualified": rng.random() < 0.2}
+            if rng.random() < 0.03 and not o.get("fk"):
                 o["col"]["unique"] = True      # Column(unique=True): the unnamed UniqueConstraint is rejected by add_constraint
             if rng.random() < 0.05 and not any(x["op"] == "add_column" and x["col"].get("index") for x in ops):
                 # one per batch: `table.indexes` is a set, two CREATE INDEX on the temp table come in hash order
                 o["col"]["index"] = True
             added.append(nm)
-            cur.append(nm)
+            if nm not in cur:
+                cur.append(nm)
             key[nm] = nm
             tys[nm] = ty
             ops.append(o)
@@ -363,7 +368,9 @@ def gen_ops(rng, t, n=None, wild=0.08):
             c = rng.choice(cur)
             rt = rng.choice(["parent", t["name"]])
             ops.append({"op": "add_fk", "name": "fk_new%d" % len(ops), "cols": [key[c]], "rtable": rt,
-                        "rcols": ["code"] if (rt == "parent" and rng.random() < 0.4) else ["id"]})
+                        "rcols": ["code"] if (rt == "parent" and rng.random() < 0.4) else ["id"],
+                        # only meaningful with schema=: referent_schema omitted
+                        "unqualified": rng.random() < 0.2})
             consts.append((ops[-1]["name"], "foreignkey"))
         elif k == "add_pk" and cur and rng.random() < 0.5:
             # a NULL in an INTEGER PRIMARY KEY column is replaced by a fresh rowid by SQLite itself: not generated
